@@ -14,7 +14,7 @@
      4. size_hint brackets the number of items still to come (upstream hints truthful).
    Upstream scripts may contain End in the middle (a source that resumes after reporting
    the end), so clause 3 is a theorem about the combinator, not an assumption. *)
-From HV Require Import Pull.Model Pull.PCore Pull.POne Pull.PTwo Pull.PSpec Pull.PCompose Pull.Corr Pull.PSound.
+From HV Require Import Pull.Model Pull.PCore Pull.POne Pull.PTwo Pull.PSpec Pull.PCompose Pull.Corr Pull.PSound Pull.PHolds.
 Open Scope N_scope.
 
 Theorem C11_map : forall (A B : Type) (uh : script A -> hintT), truthful uh -> forall f : A -> B,
@@ -194,6 +194,14 @@ Theorem C11_checker_sound : forall c t, C11_holds_b c t = true -> pre_case c = t
   hints_bracket t.
 Proof. exact C11_holds_b_sound. Qed.
 Print Assumptions C11_checker_sound.
+
+(* conversely, every trace of the model that reaches the end passes the executable form:
+   the check's property bit can only fire on an implementation trace that differs from the
+   model's (all sixteen combinators, every script, every number of polls) *)
+Theorem C11_checker_complete : forall c n, pre_case c = true ->
+  tr_items (run_case c n) <> None -> C11_holds_b c (run_case c n) = true.
+Proof. exact C11_model_holds. Qed.
+Print Assumptions C11_checker_complete.
 
 (* non-vacuity: concrete scripts with Pend between the two sides of a zip, inside a flat_map's
    inner iterator, and a non-fused source under Fuse *)
